@@ -286,18 +286,39 @@ func runRoute(seed int64, idx int) *scen.Outcome {
 		for i := 0; i < n; i++ {
 			s = append(s, universe[rnd(len(universe))])
 		}
-		if rnd(4) == 0 {
-			s = append(s, "")
+		// empty strings and duplicates anywhere in the list
+		insert := func(v string) {
+			i := rnd(len(s) + 1)
+			s = append(s[:i], append([]string{v}, s[i:]...)...)
+		}
+		if rnd(3) == 0 {
+			insert("")
+		}
+		if rnd(6) == 0 {
+			insert("")
 		}
 		if rnd(3) == 0 && len(s) > 0 {
-			s = append(s, s[0])
+			insert(s[rnd(len(s))])
 		}
 		return s
+	}
+	// Only the controller calls Update, so right after Update returns the
+	// client's target table (hook H2) must hold exactly the distinct non-empty
+	// strings of the list just supplied.
+	checkTargets := func(supplied []string) {
+		var have []string
+		for a := range c.VerifLatencies() {
+			have = append(have, a)
+		}
+		if got, want := canonSet(have), canonSet(supplied); got != want || len(have) != len(strings.Split(want, ","))-int(b2i(want == "")) {
+			out.Findings = append(out.Findings, scen.Finding{Prop: "C16", FSig: "C16/route/target-table", What: fmt.Sprintf("after Update(%q) returned the client's target table holds {%s}, expected the distinct non-empty strings {%s}", supplied, got, want)})
+		}
 	}
 	first := pick()
 	call := svc.Stamp()
 	c.Update(first...)
 	addOp(0, routeIn{Kind: "update", Set: canonSet(first)}, nil, call, svc.Stamp())
+	checkTargets(first)
 	nCallers := 1 + rng.Intn(7)
 	var running int32
 	var token uint64
@@ -358,6 +379,7 @@ func runRoute(seed int64, idx int) *scen.Outcome {
 			call := svc.Stamp()
 			c.Update(s...)
 			addOp(0, routeIn{Kind: "update", Set: canonSet(s)}, nil, call, svc.Stamp())
+			checkTargets(s)
 		}
 	}()
 	fin := vEnv{}.Settle(func() bool { return atomic.LoadInt32(&running) == 0 }, time.Hour)
@@ -976,9 +998,77 @@ func runFailover(seed int64, idx int) *scen.Outcome {
 	}
 	c.Close()
 	synctest.Wait()
+	if variant == "close" {
+		afterCloseWithDirector(rng, bad, desc)
+	}
 	out.Sig = fmt.Sprintf("failover/%d/%s/calls=%d", idx, desc, len(calls))
 	out.Nontrivial = len(calls) > 0
 	return out
+}
+
+// afterCloseWithDirector: "after Close every call fails at once" also holds
+// for a Client that routes through its Director hook (with or without
+// targets next to it): a call through the Director works before Close and
+// every call form is refused afterwards, in zero time, with the error the
+// statement names.
+func afterCloseWithDirector(rng *rand.Rand, bad func(fsig, what string), desc string) {
+	f := &fakeRT{t0: time.Now(), down: map[string][]downIv{}}
+	c := rpc.NewClient(nil)
+	c.Transport = f
+	c.DialTimeout = 300 * time.Millisecond
+	c.Director = func() string { return "dirhost" }
+	withTargets := rng.Intn(2) == 0
+	if withTargets {
+		c.Update("h0", "h1")
+		time.Sleep(250 * time.Millisecond)
+	}
+	desc = fmt.Sprintf("Director hook returning a live address, targets next to it=%v; %s", withTargets, desc)
+	var arg uint64 = 1
+	if err := c.Call("m", &arg, nil); err != nil {
+		bad("C18/failover/director-call-before-close", fmt.Sprintf("Call through the Director hook failed with %v before Close (%s)", err, desc))
+	}
+	c.Close()
+	if rng.Intn(2) == 0 {
+		synctest.Wait()
+	}
+	before := len(f.snapshot())
+	for _, form := range []string{"Call", "CallWithContext", "Go", "RoundTrip", "Ping", "NewStream"} {
+		t0 := f.now()
+		var err error
+		switch form {
+		case "Call":
+			err = c.Call("m", &arg, nil)
+		case "CallWithContext":
+			err = c.CallWithContext(context.Background(), "m", &arg, nil)
+		case "Go":
+			cl := c.Go("m", &arg, nil, make(chan *rpc.Call, 1))
+			<-cl.Done
+			err = cl.Error
+		case "RoundTrip":
+			cl := c.RoundTrip(&rpc.Call{ServiceMethod: "m", Args: &arg, Done: make(chan *rpc.Call, 1)})
+			<-cl.Done
+			err = cl.Error
+		case "Ping":
+			err = c.Ping()
+		case "NewStream":
+			_, err = c.NewStream("tok-1")
+		}
+		if d := f.now() - t0; d != 0 {
+			bad("C18/failover/after-close-slow", fmt.Sprintf("%s after Close took %v of virtual time (%s)", form, d, desc))
+		}
+		if err == nil || ((form == "Call" || form == "CallWithContext") && err != rpc.ErrShutdown) {
+			bad("C18/failover/after-close-error", fmt.Sprintf("%s after Close returned %v (%s)", form, err, desc))
+		}
+	}
+	for _, a := range f.snapshot()[before:] {
+		// (the asynchronous forms are failed by handing them to the transport
+		// with an empty address, which refuses them: that is not routing)
+		if a.addr != "" && (a.op != "Ping" || a.addr == "dirhost") {
+			bad("C18/failover/after-close-routed", fmt.Sprintf("%s was sent to %q after Client.Close (%s)", a.op, a.addr, desc))
+			break
+		}
+	}
+	synctest.Wait()
 }
 
 func policyEngine(a Args) {
